@@ -317,6 +317,9 @@ def make_object(doc, lib, id_):
     raise ValueError(lib)
 
 
+_SHARED_MASKS = {}
+
+
 def do_op(slot, op):
     """one operation on one document slot through the public API.  Returns (out, written bytes or None);
     every exception is an outcome, by class"""
@@ -330,7 +333,8 @@ def do_op(slot, op):
             return 'ok', None
         if k == 'load':
             spec, mask = op[1], op[2]
-            ignore = None if mask is None else [err_class(c) for c in mask]
+            # an application keeps ONE list object per ignore configuration and passes it to every document
+            ignore = None if mask is None else _SHARED_MASKS.setdefault(tuple(mask), [err_class(c) for c in mask])
             try:
                 d = collada.Collada(io.BytesIO(doc_bytes(spec)), ignore=ignore)
             except Exception as e:
